@@ -176,6 +176,16 @@ func (e *exec) yield(id string) {
 
 const tick = 1000 // milliseconds per tick
 
+// stamp is the timestamp of tick t: t*tick, except that in half of the block ranges the last tick is moved to the last
+// millisecond of the range (monotone in t), so that samples exist exactly at the edges that truncation and querier
+// bounds compare against.
+func (e *exec) stamp(t int64) int64 {
+	if e.cfg.Windows && (t+1)%e.cfg.R == 0 && prng.Derive(e.cfg.Seed, 0x57a, uint64(t))%2 == 0 {
+		return (t+1)*tick - 1
+	}
+	return t * tick
+}
+
 // ---- tasks ----
 
 func (e *exec) appender(a int, txs []Tx) {
@@ -243,9 +253,9 @@ func (e *exec) appender(a int, txs []Tx) {
 					c := e.hcnt[s]
 					e.mu.Unlock()
 					h := &histogram.Histogram{Schema: 0, Count: uint64(2*c + 1), Sum: v, PositiveSpans: []histogram.Span{{Offset: 0, Length: 2}}, PositiveBuckets: []int64{c, 1}}
-					_, err = app.AppendHistogram(0, e.lsets[s], t*tick, h, nil)
+					_, err = app.AppendHistogram(0, e.lsets[s], e.stamp(t), h, nil)
 				} else {
-					_, err = app.Append(0, e.lsets[s], t*tick, v)
+					_, err = app.Append(0, e.lsets[s], e.stamp(t), v)
 				}
 				if err != nil {
 					// too old / out of bounds for this appender's window: not part of the transaction
@@ -257,7 +267,7 @@ func (e *exec) appender(a int, txs []Tx) {
 				} else {
 					inord = append(inord, [2]int{s, len(pend)})
 				}
-				pend = append(pend, smp{t: t * tick, v: v, tx: txid})
+				pend = append(pend, smp{t: e.stamp(t), v: v, tx: txid})
 				pendSeries = append(pendSeries, s)
 				e.yield(id)
 			}
